@@ -71,18 +71,34 @@ THEOREMS = [
 ]
 TRUSTED = [
     "Lean 4.33.0 kernel; axioms allowed: propext, Classical.choice, Quot.sound",
-    "hand-written Lean models of ares_array.c (CaresModel/Dsa/*.lean), tied to the code by the h_dsa "
-    "correspondence stream (same op lines to harness and compiled Lean driver, outputs diffed)",
-    "harness/h_dsa.c, tools/runner.py, tools/props/C19.py (generator, reference monitor, differ)",
+    "hand-written Lean models of ares_array.c, ares_htable*.c, ares_buf.c, ares_slist.c, ares_llist.c "
+    "(CaresModel/Dsa/*.lean, CaresModel/Buf.lean), tied to the code by the h_dsa correspondence streams "
+    "(same op lines to harness and compiled Lean driver, outputs diffed) and by constants regenerated from the "
+    "sources on every run (tools/gen_consts.py -> CaresModel/Generated/DsaConsts.lean)",
+    "harness/h_dsa.c (incl. its allocator with failure schedule, ledger and zero-fill), tools/runner.py, "
+    "tools/props/C19.py (generators, python reference monitors, differ), tools/gen_consts.py (probe TU)",
     "Lean compiler (driver_dsa is the compiled form of the definitions the kernel checked)",
+    "the model-side coin flips of the skip list differ from the implementation's: sl_insert_refines holds for all "
+    "coin sequences, node levels are not observable",
+    "the hash seed of the typed hash tables is not observable: ht_run_refines_partial holds for every lawful "
+    "hash / key-equality pair; only the `raw` table (identity hash of the harness) is compared allocation by allocation",
 ]
 ASSUMPTIONS = [
-    "allocation succeeds in this stream (failure schedules belong to C14)",
-    "element destructors are not modelled",
+    "allocation succeeds in the arr/ht/buf/sl/ll streams; the allocfail streams inject single failures (C14)",
+    "element destructors are not modelled (values are plain integers / strings owned by the harness)",
+    "skip list: the user changes a node's key only immediately before ares_slist_node_reinsert",
+    "byte buffer: ares_buf_set_length is used as documented (never below an active tag); positions "
+    "(get/set_position) are compared only where they do not depend on the growth policy",
+    "sizes stay far below 2^32 / 2^63 (no size_t wrap in length arithmetic)",
 ]
-GENERATORS = [gen_consts.gen_dsa_consts]
-EXPLANATION = ("Refinement theorems (each container model refines the trivial list/map reference for every "
-               "operation sequence) + step-by-step correspondence of the real containers with the model.")
+EXPLANATION = ("Refinement theorems (each container model refines its trivial reference - list, association map, byte "
+               "queue, sorted list, family of lists - for every operation sequence) + step-by-step correspondence of the "
+               "real containers with the compiled models + python reference monitors evaluating the ADT property on the "
+               "implementation's own answers.")
+RULE = ("cases are generated from VERIF_SEED by seven stream generators (styles: front draining, growth thresholds, "
+        "duplicate keys, colliding hashes, case variants, equal sort keys, tall/flat skip-list towers, moves between "
+        "lists, back-patching, every split flag combination, injected allocation failures); a case is non-trivial when "
+        "at least one operation produced a non-error result; distinct by hash of its op lines")
 
 
 def gen_arr(rng, tier):
@@ -1385,13 +1401,21 @@ STREAMS = [
     Stream("allocfail_typed", "h_dsa", None, gen_allocfail_typed, monitor=mon_allocfail, timeout=120),
 ]
 
-LEVEL_TEXT = ("Proof: Lean 4 refinement theorems, for every operation sequence, that the model of each container "
-              "(ares_array with its offset/count/allocation fields and ares_array_move bounds checks; more containers "
-              "as they are added) behaves as the trivial list/map reference, never gets stuck and keeps its invariant. "
-              "Tie: the real containers are run step by step against the compiled model on generated op sequences "
-              "(drain-from-front, growth thresholds, boundary indexes) under ASan/UBSan; a python list reference "
-              "monitors the property directly on the implementation.")
-LEVEL_NOTE = ("Trusted: Lean kernel (axioms propext, Classical.choice, Quot.sound only), the hand-written model's "
-              "faithfulness as far as the correspondence stream exercises it, harness/h_dsa.c, the runner. "
-              "C-level memory safety is observed under sanitizers, not proved.")
-TECHNIQUE = "Lean 4 refinement proof (model -> abstract list/map) + differential correspondence with the C containers"
+LEVEL_TEXT = ("Proof: Lean 4 refinement theorems, for every operation sequence, that the model of each container behaves as "
+              "its trivial reference and keeps its invariant: ares_array (offset/count/allocation, ares_array_move bounds) -> "
+              "list; ares_htable + six typed tables (buckets, power-of-two size, num_keys, num_collisions = sum(len-1), growth "
+              "at the regenerated expand percentage with the pre-allocation of ares_htable_expand proved sufficient) -> "
+              "association map, for every lawful hash/equality and every seed, plus the FNV-1a shift-add = multiply and "
+              "case-insensitive-hash lemmas; ares_buf (in-place / reclaim / grow ladder, tag, rollback, reclaim never drops "
+              "bytes at or after min(tag, offset), back-patching = overwrite, ares_buf_split = list specification for all "
+              "flags) -> byte queue; ares_slist (level lists, for ALL coin flips: sorted, nothing lost, equal keys go "
+              "first, find = first equal, tail, reinsert, levels nested) -> sorted list; ares_llist (pointer-level heap of "
+              "prev/next/parent) -> family of sequences. Partial where the pinned tree is defective: NULL key of the "
+              "pointer-keyed tables (F30-C19) and insert_before/after in the middle of a list (F32-C19) have kernel-checked "
+              "counterexamples and _partial theorems. Tie: real containers run step by step against the compiled models "
+              "under ASan/UBSan with an allocation ledger; python references monitor the property directly.")
+LEVEL_NOTE = ("Trusted: Lean kernel (axioms propext, Classical.choice, Quot.sound only), the hand-written models' "
+              "faithfulness as far as the correspondence streams exercise it, harness/h_dsa.c, the runner, "
+              "tools/gen_consts.py. Skip-list levels and hash seeds are not observable and are quantified over in the "
+              "theorems rather than compared. C-level memory safety is observed under sanitizers, not proved.")
+TECHNIQUE = "Lean 4 refinement proof (model -> abstract list/map/queue) + differential correspondence with the C containers"
